@@ -39,6 +39,8 @@ add("C06", EX, "Bounded-exhaustive: order() is run on every DAG with <= 5 (6) no
     "bounded exhaustive enumeration of all small labelled DAGs with invariant check")
 add("C07", EX, "Bounded-exhaustive: ALL labelled digraphs with <= 4 (5) nodes x all start-key subsets; toposort/getcycle/isdag compared with a reference, every call under a watchdog so non-termination is a reported violation.", "5/C07", GRAPH_NOTE,
     "bounded exhaustive enumeration of all small digraphs x start sets against a reference algorithm")
+add("C09", EX, "Bounded-exhaustive: every optimisation (cull, inline, inline_functions, fuse_linear, fuse over a parameter grid, task-spec fusion/cull, resolve_aliases, Task.fuse, substitute) applied to every small DAG x kinds x key styles x every requested-key subset; the optimised graph is evaluated and compared with the reference values of the original, and returned dependency maps are compared with the returned graph.", "5/C09", GRAPH_NOTE,
+    "bounded exhaustive enumeration of small graphs x request subsets x parameter grid with differential evaluation")
 
 
 def build():
